@@ -152,6 +152,10 @@ func (b *Batch) Delete(key []byte) error {
 	b.mu.Lock()
 	defer b.mu.Unlock()
 
+	if b.committed {
+		return ErrBatchCommitted
+	}
+
 	logRecord := b.findPendingRecord(key)
 
 	// 缓存命中, 直接操作缓存
@@ -186,17 +190,19 @@ func (b *Batch) Delete(key []byte) error {
 }
 
 func (b *Batch) Commit() error {
-	// 提交后允许操作 DB 实例
-	defer b.db.mu.Unlock()
-
 	b.mu.Lock()
 	defer b.mu.Unlock()
 
-	if len(b.staged) == 0 {
-		return nil
-	}
+	// 已提交的批处理不再持有 DB 锁, 不得重复释放
 	if b.committed {
 		return ErrBatchCommitted
+	}
+	// 无论提交成功与否批处理到此结束: 释放 DB 锁, 之后不可再使用
+	b.committed = true
+	defer b.db.mu.Unlock()
+
+	if len(b.staged) == 0 {
+		return nil
 	}
 
 	err := b.flushStaged()
